@@ -13,9 +13,12 @@ fn bh() -> BuildHasherDefault<FnvHasher> { BuildHasherDefault::<FnvHasher>::defa
 type SS = SetSketcher<u16, u64, FnvHasher>;
 fn mk(p: SetSketchParams, xs: &[u64]) -> SS { let mut s = SS::new(p, bh()); for x in xs { s.sketch(x).unwrap(); } s }
 
+// m >= COARSE encodes "coarse registers": b = 1.5, a = 20, q = 62 with m - COARSE registers, so that the lower bound of the
+// registers becomes active after a few dozen items (keeps the replay input format {m, a, b})
+const COARSE: usize = 1_000_000;
 fn case(m: usize, a: &[u64], b: &[u64]) -> Option<(String, String)> {
     let mut p = SetSketchParams::default();
-    p.set_m(m);
+    let m = if m >= COARSE { p = SetSketchParams::new(1.5, (m - COARSE) as u64, 20., 62); m - COARSE } else { p.set_m(m); m };
     let sa = mk(p, a);
     let sb = mk(p, b);
     let mut u: Vec<u64> = a.to_vec(); u.extend_from_slice(b);
@@ -114,6 +117,14 @@ fn verif_replay_c05() {
             let b: Vec<u64> = (0..nb as u64).map(|i| if (i as usize) < overlap { i * 13 + 1 } else { i * 11 + 500_000 }).collect();
             cases += 1;
             if let Some((o, e)) = case(m, &a, &b) { out(true, serde_json::json!({"m": m, "a": a, "b": b}), o, e, cases); return; }
+        }}}
+    }
+    for m in [8usize, 16] {
+        for na in [30usize, 200] { for nb in [1usize, 40, 300] { for overlap in [0usize, 5] {
+            let a: Vec<u64> = (0..na as u64).map(|i| i * 13 + 1).collect();
+            let b: Vec<u64> = (0..nb as u64).map(|i| if (i as usize) < overlap { i * 13 + 1 } else { i * 11 + 500_000 }).collect();
+            cases += 1;
+            if let Some((o, e)) = case(COARSE + m, &a, &b) { out(true, serde_json::json!({"m": COARSE + m, "a": a, "b": b}), o, e, cases); return; }
         }}}
     }
     out(false, serde_json::Value::Null, "no disagreement".into(), "".into(), cases);
